@@ -168,7 +168,7 @@ Proof.
     unfold pix. rewrite (unravel_map_tab (fun _ => fill)).
     apply tab_ext. intros i j Hi Hj. unfold index_pointwise.
     specialize (Hq i j ltac:(lia) ltac:(lia)).
-    destruct (Z.ltb_spec (q i j) n); [lia|]. rewrite andb_false_r. reflexivity.
+    destruct (Z.ltb_spec (q i j) 0); [lia|]. rewrite andb_false_r. reflexivity.
   - pose proof (count_true_nonneg vii). assert (Hn : 0 < n) by (unfold n in *; lia).
     unfold voil. rewrite (np_sample_char fill vii (fun p => voi (fst p) (snd p)) q pix plane Hn).
     unfold pix. rewrite unravel_map_tab. cbn [fst snd].
